@@ -9,6 +9,9 @@ def gen(rng, tier):
     def add(a, b, cls):
         cases.append(Case("cteq %s %s" % (hexs(a), hexs(b)), cls, len(a) + len(b) > 0, spec="spec.eq %s %s" % (hexs(a), hexs(b))))
     add(b"", b"", "empty/empty")
+    # lengths that differ by a multiple of 2^32 (all-zero contents on untouched zero pages): a length difference folded into 32 bits vanishes
+    for la, lb in [(2 ** 32, 0), (2 ** 32 + 5, 5)]:
+        cases.append(Case("cteqbig %d %d" % (la, lb), "len-differ by 2^32 zero-content", True, spec="spec.eqbig %d %d" % (la, lb)))
     lens = [0, 1, 2, 3, 7, 8, 9, 15, 16, 17, 31, 32, 33, 63, 64, 65, 255, 256, 257, 511, 512, 513, 768, 1024]
     # length pairs, zero content (only the length seed can tell them apart), incl. differences of 256*k
     for la in lens:
@@ -52,6 +55,8 @@ def gen(rng, tier):
         a = bytes(rng.randrange(256) for _ in range(la))
         b = bytes(rng.randrange(256) for _ in range(lb)) if rng.random() < 0.5 else (a + bytes(max(0, lb - la)))[:lb]
         add(a, b, "random eq=%s" % (a == b))
+    # every API family once during static initialisation of the driver (before the library's own dynamic initialisers have run)
+    cases.append(Case("staticinit", "static-initialisation battery", True, spec="staticinit"))
     return cases
 
 def key(case, impl, model):
